@@ -85,6 +85,12 @@ class TwoRateTokenBucket(Device):
                         (packet.size - self.current_bucket_peak) * 8.0 / self.pir
                     )
                     self.current_bucket_peak = 0.0
+                    # the committed bucket kept filling while we waited for
+                    # peak tokens; update_time moves past the wait below
+                    self.current_bucket_commit = min(
+                        self.cbs,
+                        self.current_bucket_commit + self.cir * (env.now - now) / 8.0,
+                    )
                     packet.color = "red"
                     self.update_time = env.now
                 elif packet.size > self.current_bucket_commit:
